@@ -245,3 +245,10 @@ Theorem rx_rt_values d g idmap g' mdtok axtok : rx_target idmap g = Ok g' -> dom
 Proof. intros Ht H. destruct (rx_roundtrip cv_of_py d g idmap g' mdtok axtok Ht (dom_values_dicts d g' H))
     as [post [mg [r [cg [Hw [_ [Hr [Hc [Hcr Hs]]]]]]]]].
   exists cg. split; [|exact Hs]. unfold rx_rt. rewrite Hw, Hr, Hc, Hcr. reflexivity. Qed.
+
+(* an empty list next to an int list: numpy types [] as float64, the whole ragged column becomes float64 (open finding) *)
+Definition ex_empty_list : dgraph :=
+  mkdg [(1%Z, [("p", PList [PInt (2 ^ 53 + 1); PInt (-128)])]); (2%Z, [("p", PList [])])] [].
+Lemma ex_empty_list_result : nx_rt true ex_empty_list 0 0
+  = Ok (mkcg true [(1%Z, [("p", CArr SFloat [2%nat] [2 ^ 53 * 1024; -128 * 1024]%Z)]); (2%Z, [("p", CArr SFloat [0%nat] [])])] []).
+Proof. vm_compute. reflexivity. Qed.
